@@ -4,9 +4,11 @@ import (
 	"bytes"
 	"context"
 	"encoding/json"
+	"errors"
 	"flag"
 	"fmt"
 	"math/rand"
+	"net"
 	"os"
 	"os/exec"
 	"sort"
@@ -503,37 +505,66 @@ func c16Drop(res *Result, col *collector, tw *traceWriter, rng *rand.Rand, seed 
 
 // ---------------------------------------------------------------- dials fail fast
 
-const dialThreshold = 5 * time.Second
+// A dial to an unbound service is judged by its CAUSE, not by a stopwatch: it must end because the 'service unknown'
+// notice cancelled it (DialContext then returns context.Canceled: nothing else cancels that context here), and not
+// because the caller's deadline (14 s, just below the 15 s QUIC handshake idle time-out) or the handshake time-out ran out
+// although notices had reached the dialling socket long before.  A dial that ran into the deadline WITHOUT such evidence
+// (no or only one late notice at its socket: the machine may simply be slow) is inconclusive, never a violation.
+const (
+	dialDeadline    = 14 * time.Second
+	dialNoticeEarly = 5 * time.Second // "long before": the first notice reached the socket at least this long before the end
+)
 
 type dialOutcome struct {
 	err       error
 	took      time.Duration
-	noticeAt  time.Duration // when the first 'service unknown' notification reached the dial's own socket (-1: never)
+	notices   int           // 'service unknown' notifications that reached the dial's own socket while it ran
+	noticeAt  time.Duration // when the first of them did (-1: never)
 	afterNote time.Duration
 }
 
+func isTimeoutErr(err error) bool {
+	if err == nil {
+		return false
+	}
+	if errors.Is(err, context.DeadlineExceeded) {
+		return true
+	}
+	var ne net.Error
+	if errors.As(err, &ne) && ne.Timeout() {
+		return true
+	}
+	t := err.Error()
+
+	return strings.Contains(t, "timeout") || strings.Contains(t, "deadline") || strings.Contains(t, "no recent network activity")
+}
+
+// timedDial dials (target, service); service must be used by this dial only (the notices are attributed by it).
 func timedDial(col *collector, n *netceptor.Netceptor, nodeID, target, service string, known map[string]bool) dialOutcome {
 	ev0 := col.Len()
 	start := time.Now()
-	ctx, cancel := context.WithTimeout(context.Background(), 13*time.Second) // below the 15 s handshake idle timeout
+	ctx, cancel := context.WithTimeout(context.Background(), dialDeadline)
 	defer cancel()
 	c, err := n.DialContext(ctx, target, service, nil)
-	took := time.Since(start)
+	end := time.Now()
 	if err == nil && c != nil {
 		_ = c.Close()
 	}
-	out := dialOutcome{err: err, took: took, noticeAt: -1}
+	out := dialOutcome{err: err, took: end.Sub(start), noticeAt: -1}
 	for _, r := range col.Since(ev0) {
 		if r["ev"] == "unr_socket" && nodeOfLabel(evStr(r, "n")) == nodeID && !known[evStr(r, "svc")] &&
 			evStr(r, "problem") == netceptor.ProblemServiceUnknown && evStr(r, "tosvc") == service {
 			t, _ := r["t"].(int64)
-			out.noticeAt = time.Unix(0, t).Sub(start)
-
-			break
+			if at := time.Unix(0, t); !at.After(end) {
+				out.notices++
+				if out.noticeAt < 0 {
+					out.noticeAt = at.Sub(start)
+				}
+			}
 		}
 	}
 	if out.noticeAt >= 0 {
-		out.afterNote = took - out.noticeAt
+		out.afterNote = out.took - out.noticeAt
 	}
 
 	return out
@@ -545,11 +576,15 @@ func judgeDial(res *Result, what string, o dialOutcome, replay any) {
 	switch {
 	case o.err == nil:
 		res.violate("C16:dial-to-unbound-succeeded", fmt.Sprintf("%s: DialContext returned a connection", what), replay)
-	case o.noticeAt >= 0 && o.afterNote >= dialThreshold:
-		res.violate("C16:dial-not-abandoned-on-notice", fmt.Sprintf("%s: the 'service unknown' notice reached the dialling socket after %v, but DialContext only returned %v later (%v): "+
-			"the dial waited for the handshake timeout instead of being abandoned", what, o.noticeAt.Round(time.Millisecond), o.afterNote.Round(time.Millisecond), o.err), replay)
-	case o.noticeAt < 0 && o.took >= dialThreshold:
-		res.inconclusive("%s: dial took %v and no notice reached the dialling socket", what, o.took)
+	case errors.Is(o.err, context.Canceled):
+		res.count("dials_abandoned_by_notice") // the only canceller of the dial's context is the unreachable monitor
+	case isTimeoutErr(o.err) && o.notices >= 2 && o.afterNote >= dialNoticeEarly:
+		res.violate("C16:dial-not-abandoned-on-notice", fmt.Sprintf("%s: %d 'service unknown' notices reached the dialling socket, the first after %v, but the dial was not abandoned: "+
+			"it ended %v later by running out of time (%v)", what, o.notices, o.noticeAt.Round(time.Millisecond), o.afterNote.Round(time.Millisecond), o.err), replay)
+	case isTimeoutErr(o.err):
+		res.inconclusive("%s: the dial ran out of time after %v (%v) and %d notice(s) reached its socket: no definite cause", what, o.took.Round(time.Millisecond), o.err, o.notices)
+	default:
+		res.count("dials_ended_otherwise")
 	}
 }
 
@@ -567,7 +602,7 @@ func c16Dial(res *Result, col *collector, tw *traceWriter, rng *rand.Rand, seed 
 	for r := 0; r < rounds; r++ {
 		// (1) a service that was never bound
 		res.eval(fmt.Sprintf("dial|unbound|%d", r))
-		o := timedDial(col, a.n, a.id, c.id, "nolisten", known)
+		o := timedDial(col, a.n, a.id, c.id, fmt.Sprintf("nl%d", r), known)
 		judgeDial(res, "dial to a service that was never bound", o, map[string]any{"case": "unbound"})
 		// (2) a stream listener that exists, is used once, and is closed a moment before the next dial
 		li, err := c.n.Listen("strm", nil)
@@ -896,7 +931,9 @@ func churn(res *Result, col *collector, rng *rand.Rand, seed int64, rounds int) 
 		known[s.Svc] = true
 	}
 	var sentSteady [2]int64
-	var churnOps, dialsDone, dialsSlow int64
+	var churnOps, dialsDone int64
+	var dialMu sync.Mutex
+	var dialOutcomes []dialOutcome
 	stop := make(chan struct{})
 	var wgSteady, wgChurn sync.WaitGroup
 	for i, s := range steady {
@@ -908,6 +945,13 @@ func churn(res *Result, col *collector, rng *rand.Rand, seed int64, rounds int) 
 				case <-stop:
 					return
 				default:
+				}
+				// at most 32 datagrams unanswered: the notices keep flowing all the time without a queue building up in the
+				// (unbounded) links, which would only delay everybody's notices by seconds
+				if atomic.LoadInt64(&sentSteady[i])-atomic.LoadInt64(&s.noted) >= 32 {
+					time.Sleep(50 * time.Microsecond)
+
+					continue
 				}
 				if s.sendTo(a, ids[1], "nosvc", []byte("steady")) == nil {
 					atomic.AddInt64(&sentSteady[i], 1)
@@ -945,25 +989,19 @@ func churn(res *Result, col *collector, rng *rand.Rand, seed int64, rounds int) 
 			}
 		}(c)
 	}
-	dialRounds := rounds/8 + 1
-	for d := 0; d < 4; d++ {
+	dialRounds := rounds/6 + 1
+	for d := 0; d < 2; d++ { // two diallers at a time: the machine, not the node, must not be the bottleneck
 		wgChurn.Add(1)
-		go func() {
+		go func(d int) {
 			defer wgChurn.Done()
 			for k := 0; k < dialRounds; k++ {
-				ctx, cancel := context.WithTimeout(context.Background(), 8*time.Second)
-				t0 := time.Now()
-				c, err := a.DialContext(ctx, ids[1], "nolisten", nil)
-				cancel()
-				if err == nil && c != nil {
-					_ = c.Close()
-				}
-				if time.Since(t0) >= dialThreshold {
-					atomic.AddInt64(&dialsSlow, 1)
-				}
+				o := timedDial(col, a, ids[0], ids[1], fmt.Sprintf("cd%d-%d", d, k), known)
+				dialMu.Lock()
+				dialOutcomes = append(dialOutcomes, o)
+				dialMu.Unlock()
 				atomic.AddInt64(&dialsDone, 1)
 			}
-		}()
+		}(d)
 	}
 	// wait for the churn to finish; a node whose broker is wedged blocks the churners for ever: watch the progress
 	finished := make(chan struct{})
@@ -981,7 +1019,7 @@ func churn(res *Result, col *collector, rng *rand.Rand, seed int64, rounds int) 
 			cur := atomic.LoadInt64(&churnOps) + atomic.LoadInt64(&dialsDone)
 			if cur != last {
 				last, lastChange = cur, time.Now()
-			} else if time.Since(lastChange) > 8*time.Second {
+			} else if time.Since(lastChange) > dialDeadline+10*time.Second {
 				stalled, waiting = true, false
 			}
 		}
@@ -1024,9 +1062,16 @@ func churn(res *Result, col *collector, rng *rand.Rand, seed int64, rounds int) 
 	if gotSteady > total {
 		res.violate("C16:unexpected-notice", fmt.Sprintf("churn: the steady sockets sent %d datagrams and received %d notices", total, gotSteady), rp)
 	}
-	if n := atomic.LoadInt64(&dialsSlow); n > 0 && ok {
-		res.violate("C16:dial-not-abandoned-after-socket-churn", fmt.Sprintf("%d of %d concurrent dials to an unbound service took %v or longer while notices were flowing normally",
-			n, atomic.LoadInt64(&dialsDone), dialThreshold), rp)
+	if ok { // notices were flowing normally: every concurrent dial is judged by the cause of its end
+		dialMu.Lock()
+		outs := append([]dialOutcome(nil), dialOutcomes...)
+		dialMu.Unlock()
+		for _, o := range outs {
+			judgeDial(res, "dial to an unbound service during socket churn", o, rp)
+			if o.took > 3*time.Second {
+				res.Notes = append(res.Notes, fmt.Sprintf("slow dial during churn: took %v, %d notices at its socket (first after %v), error %v", o.took.Round(time.Millisecond), o.notices, o.noticeAt.Round(time.Millisecond), o.err))
+			}
+		}
 	}
 	// afterwards: a further datagram from a socket that has been open all the time, and a further dial
 	n0 := len(notesAt(obs, ids[0], steady[0].Svc))
@@ -1053,21 +1098,24 @@ func churn(res *Result, col *collector, rng *rand.Rand, seed int64, rounds int) 
 	res.eval("churn|after|dial")
 	var o dialOutcome
 	evd := col.Len()
-	if !within(20*time.Second, func() { o = timedDial(col, a, ids[0], ids[1], "nolisten", known) }) {
+	if !within(dialDeadline+10*time.Second, func() { o = timedDial(col, a, ids[0], ids[1], "afterdl", known) }) {
 		produced := false
 		for _, r := range col.Since(evd) {
-			if r["ev"] == "dp_unknown" && evStr(r, "tosvc") == "nolisten" {
+			if r["ev"] == "dp_unknown" && evStr(r, "tosvc") == "afterdl" {
 				produced = true
 			}
 		}
-		res.violate("C16:dial-not-abandoned-after-socket-churn", fmt.Sprintf("a dial to an unbound service issued after the socket churn had not returned after 20 s "+
-			"(the addressed node answered 'service unknown': %v; new sockets cannot be opened on a node whose unreachable broker no longer accepts subscriptions)", produced), rp)
+		if !got { // definite: the node has stopped delivering notices (shown above), and now it cannot even open the dial's socket
+			res.violate("C16:dial-not-abandoned-after-socket-churn", fmt.Sprintf("a dial to an unbound service issued after the socket churn had not returned %v after its own deadline "+
+				"(the addressed node answered 'service unknown': %v; new sockets cannot be opened on a node whose unreachable broker no longer accepts subscriptions)", 10*time.Second, produced), rp)
+		} else {
+			res.inconclusive("churn: the dial after the churn did not return although notices are still delivered")
+		}
+	} else if !got && isTimeoutErr(o.err) {
+		res.violate("C16:dial-not-abandoned-after-socket-churn", fmt.Sprintf("a dial to an unbound service issued after the socket churn ran out of time after %v (%v): no notice reaches the node's sockets any more",
+			o.took.Round(time.Millisecond), o.err), rp)
 	} else {
 		judgeDial(res, "dial to an unbound service after socket churn", o, rp)
-		if o.err != nil && o.noticeAt < 0 && o.took >= dialThreshold && !got {
-			res.violate("C16:dial-not-abandoned-after-socket-churn", fmt.Sprintf("a dial to an unbound service issued after the socket churn ran for %v (%v): no notice reaches the node's sockets any more",
-				o.took.Round(time.Millisecond), o.err), rp)
-		}
 	}
 	res.count("churn_rounds")
 }
